@@ -255,8 +255,19 @@ class EvolveAppTask(BaseEvolutionTask):
                         task_sql = task_info.get('sql')
 
                         if task_sql:
+                            # Only announce the evolutions that are part of
+                            # this batch. The rest of the task's evolutions
+                            # may be applied in another batch.
+                            batch_labels = set(task_info['evolutions'])
+                            batch_evolutions = [
+                                evolution
+                                for evolution in task.new_evolutions
+                                if evolution.label in batch_labels
+                            ]
+
                             task.execute(sql_executor=sql_executor,
                                          sql=task_sql,
+                                         evolutions=batch_evolutions or None,
                                          **kwargs)
             elif batch_type == UpgradeMethod.MIGRATIONS:
                 assert migrating
